@@ -221,12 +221,35 @@ theorem reduce_pairs (A : AggType) :
       simp [Map.lookup, this]
     · simp [Map.lookup, hk]
 
+/-- on single-agg-type arrays the by-type step is the plain step. -/
+theorem ofType_eq_single (A : AggType) (a : Arrays) (hw : WF1 A a) (t : Nat) (v : Int) :
+    aggregateBySlotOfType a A t v = aggregateBySlot a t v := by
+  obtain ⟨m, rfl, _⟩ := hw
+  simp [aggregateBySlotOfType, aggregateBySlot]
+
+theorem foldl_ofType_eq (A : AggType) :
+    ∀ (m : List (Nat × Int)) (acc : Arrays), WF1 A acc →
+      m.foldl (fun acc (tv : Nat × Int) => aggregateBySlotOfType acc A tv.1 tv.2) acc =
+      m.foldl (fun acc (tv : Nat × Int) => aggregateBySlot acc tv.1 tv.2) acc := by
+  intro m
+  induction m with
+  | nil => intro acc _; rfl
+  | cons p rest ih =>
+    intro acc hw
+    simp only [List.foldl_cons]
+    rw [ofType_eq_single A acc hw]
+    exact ih _ (aggregateBySlot_single A acc hw p.1 p.2).1
+
 theorem reduceInto_single (A : AggType) (acc inc : Arrays) (hwa : WF1 A acc) (hwi : WF1 A inc) :
     WF1 A (reduceInto acc inc) ∧
     ∀ t, arrGet (reduceInto acc inc) A t = ocomb A (arrGet acc A t) (arrGet inc A t) := by
   obtain ⟨m, rfl, hn⟩ := hwi
   have := reduce_pairs A m acc hwa hn
-  simp only [reduceInto, List.foldl_cons, List.foldl_nil]
+  have hany : (acc.any fun (x : AggType × List (Nat × Int)) => decide (x.1 = A)) = true := by
+    obtain ⟨m', rfl, _⟩ := hwa
+    simp
+  simp only [reduceInto, List.foldl_cons, List.foldl_nil, hany, if_true]
+  rw [foldl_ofType_eq A m acc hwa]
   refine ⟨this.1, ?_⟩
   intro t
   rw [this.2 t, arrGet_single]
@@ -386,37 +409,37 @@ theorem monthStart_mono (lens : List Nat) (hpos : ∀ l ∈ lens, 0 < l) :
       have h2 := monthStart_succ_le lens k hpos (by omega)
       omega
 
-theorem monthFamilySelected_same_month (lens : List Nat) (hpos : ∀ l ∈ lens, 0 < l) (qs qe f : Nat)
-    (hle : qs ≤ qe) (hqe : qe < monthStart lens lens.length) (hf : f < monthStart lens lens.length)
-    (hsame : (monthOfDay lens qs).1 = (monthOfDay lens qe).1) :
+/-- the repaired month-type selection is exact for every query range. -/
+theorem monthFamilySelected_exact (lens : List Nat) (hpos : ∀ l ∈ lens, 0 < l) (qs qe f : Nat)
+    (hle : qs ≤ qe) (hqe : qe < monthStart lens lens.length) (hf : f < monthStart lens lens.length) :
     monthFamilySelected lens qs qe f = (decide (qs ≤ f) && decide (f ≤ qe)) := by
   obtain ⟨q1, q2, q3, q4⟩ := monthOfDay_spec lens qs hpos (by omega)
-  obtain ⟨e1, e2, e3, e4⟩ := monthOfDay_spec lens qe hpos hqe
   obtain ⟨f1, f2, f3, f4⟩ := monthOfDay_spec lens f hpos hf
-  rw [← hsame] at e2 e4
   unfold monthFamilySelected
   simp only
-  rcases Nat.lt_trichotomy (monthOfDay lens f).1 (monthOfDay lens qs).1 with hlt | heq | hgt
-  · -- an earlier month: its segment is not walked
-    have h1 := monthStart_succ_le lens (monthOfDay lens f).1 hpos f1
-    have h2 := monthStart_mono lens hpos (monthOfDay lens qs).1 ((monthOfDay lens f).1 + 1) (by omega) (by omega)
-    have : monthStart lens (monthOfDay lens f).1 < monthStart lens (monthOfDay lens qs).1 := by omega
-    simp only [this, true_or, if_true]
-    have : ¬(qs ≤ f) := by omega
-    simp [this]
-  · rw [heq]
-    have hc : ¬(monthStart lens (monthOfDay lens qs).1 < monthStart lens (monthOfDay lens qs).1 ∨
-        monthStart lens (monthOfDay lens qs).1 > qe) := by omega
-    simp only [hc, if_false]
-    have hS : monthStart lens (monthOfDay lens qs).1 + (monthOfDay lens qs).2 - 1 = qs := by omega
-    have hE : monthStart lens (monthOfDay lens qs).1 + (monthOfDay lens qe).2 - 1 = qe := by omega
-    rw [hS, hE]
-    by_cases ha : qs ≤ f <;> by_cases hb : f ≤ qe <;> simp [ha, hb] <;> omega
-  · -- a later month: its segment starts after the range
-    have h2 := monthStart_mono lens hpos (monthOfDay lens f).1 ((monthOfDay lens qs).1 + 1) (by omega) (by omega)
-    have : monthStart lens (monthOfDay lens f).1 > qe := by omega
-    simp only [this, or_true, if_true]
-    have : ¬(f ≤ qe) := by omega
-    simp [this]
+  by_cases hin : qs ≤ f ∧ f ≤ qe
+  · -- in range: its segment is walked
+    have hseg : ¬(monthStart lens (monthOfDay lens f).1 < monthStart lens (monthOfDay lens qs).1 ∨
+        monthStart lens (monthOfDay lens f).1 > qe) := by
+      intro h
+      rcases h with h | h
+      · rcases Nat.lt_or_ge (monthOfDay lens f).1 (monthOfDay lens qs).1 with hlt | hge
+        · have := monthStart_mono lens hpos (monthOfDay lens qs).1 ((monthOfDay lens f).1 + 1) (by omega) (by omega)
+          omega
+        · have := monthStart_mono lens hpos (monthOfDay lens f).1 (monthOfDay lens qs).1 hge (by omega)
+          omega
+      · omega
+    simp only [hseg, if_false]
+    simp [hin.1, hin.2]
+  · have hrhs : (decide (qs ≤ f) && decide (f ≤ qe)) = false := by
+      by_cases ha : qs ≤ f <;> by_cases hb : f ≤ qe <;> simp [ha, hb]
+      exact hin ⟨ha, hb⟩
+    rw [hrhs]
+    split
+    · rfl
+    · have h1 : ¬(f ≥ qs ∧ f ≤ qe) := hin
+      have h2 : ¬(f = qs) := fun e => hin ⟨by omega, by omega⟩
+      by_cases ha : f ≥ qs <;> by_cases hb : f ≤ qe <;> simp [ha, hb, h2]
+      all_goals first | omega | exact absurd ⟨ha, hb⟩ hin
 
 end LinVerif.Lemmas.C11
